@@ -76,7 +76,7 @@ func (v *VarInt) ReadFrom(r io.Reader) (int64, error) {
 	case 0xff:
 		bb := make([]byte, 8)
 		if n, err := io.ReadFull(r, bb); err != nil {
-			return 9, errors.Wrapf(err, "varint(8): got %d bytes", n)
+			return int64(1 + n), errors.Wrapf(err, "varint(8): got %d bytes", n)
 		}
 		*v = VarInt(binary.LittleEndian.Uint64(bb))
 		return 9, nil
@@ -84,7 +84,7 @@ func (v *VarInt) ReadFrom(r io.Reader) (int64, error) {
 	case 0xfe:
 		bb := make([]byte, 4)
 		if n, err := io.ReadFull(r, bb); err != nil {
-			return 5, errors.Wrapf(err, "varint(4): got %d bytes", n)
+			return int64(1 + n), errors.Wrapf(err, "varint(4): got %d bytes", n)
 		}
 		*v = VarInt(binary.LittleEndian.Uint32(bb))
 		return 5, nil
@@ -92,7 +92,7 @@ func (v *VarInt) ReadFrom(r io.Reader) (int64, error) {
 	case 0xfd:
 		bb := make([]byte, 2)
 		if n, err := io.ReadFull(r, bb); err != nil {
-			return 3, errors.Wrapf(err, "varint(2): got %d bytes", n)
+			return int64(1 + n), errors.Wrapf(err, "varint(2): got %d bytes", n)
 		}
 		*v = VarInt(binary.LittleEndian.Uint16(bb))
 		return 3, nil
